@@ -53,5 +53,15 @@ V2Peer(c, s) ==
 \* the ZMTP/2.0 handshake completes exactly for the valid pairings
 V2Verdict == (Len(sent) = 4 /\ ch = <<>>) => ((Hc # {}) <=> Compat(cfg.st, sent[3].st))
 
+\* C04: honest transcripts written blindly - a ZMTP/3 NULL or a ZMTP/2.0 handshake, then data
+Transcript(c, s) ==
+  IF Len(s) = 0 THEN { Sig(TRUE) }
+  ELSE IF Len(s) = 1 THEN { Rev(3), Rev(1) }
+  ELSE IF Len(s) = 2 THEN (IF s[2].r = 1 THEN { T2(Partner(c.st)) } ELSE { GTail("NULL", ~c.srv, TRUE) })
+  ELSE IF Len(s) = 3 THEN (IF s[2].r = 1 THEN { Fr(FALSE, FALSE, BData("")) , Fr(FALSE, FALSE, BData("id")) }
+                           ELSE { Fr(TRUE, FALSE, BReady(Partner(c.st), "")), Fr(TRUE, FALSE, BReady(Partner(c.st), "z")) })
+  ELSE { Fr(FALSE, FALSE, BData("m" \o ToString(Len(s)))), Fr(FALSE, TRUE, BData("m" \o ToString(Len(s)))) }
+         \cup (IF s[2].r = 1 THEN {} ELSE { Fr(TRUE, FALSE, BPing("c")) })
+
 Export == Terminal => PrintT(<<"REPLAY", ToJson([cfg |-> e.cfg, steps |-> hist])>>)
 =============================================================================
